@@ -57,6 +57,14 @@ static lzma_ret lzma_stream_decoder(lzma_stream *s, uint64_t memlimit, uint32_t 
 	return LZMA_OK;
 }
 
+static lzma_ret toy_lzma_errcode(void)
+{
+	static const lzma_ret codes[] = { LZMA_DATA_ERROR, LZMA_FORMAT_ERROR, LZMA_MEM_ERROR, LZMA_MEMLIMIT_ERROR,
+					  LZMA_OPTIONS_ERROR, LZMA_PROG_ERROR };
+	static unsigned n;
+	return codes[n++ % (sizeof(codes) / sizeof(codes[0]))];
+}
+
 static lzma_ret lzma_code(lzma_stream *s, lzma_action a)
 {
 	size_t c, p;
@@ -73,7 +81,7 @@ static lzma_ret lzma_code(lzma_stream *s, lzma_action a)
 	case TOY_OK: return LZMA_OK;
 	case TOY_END: return LZMA_STREAM_END;
 	case TOY_BUF: return LZMA_BUF_ERROR;
-	default: return LZMA_DATA_ERROR;
+	default: return toy_lzma_errcode();
 	}
 }
 
